@@ -1,5 +1,7 @@
 package main
 
+import "os"
+
 // Replay of refuted obligations against the real code (go test -overlay); drivers are
 // registered per obligation-name prefix in replay_drivers.go.
 
@@ -12,6 +14,9 @@ type ReplayResult struct {
 }
 
 func (r *Report) replay(o *Obligation, sr *SolveResult) ReplayResult {
+	if os.Getenv("VERIF_NO_REPLAY") != "" {
+		return ReplayResult{Summary: "replay skipped (self-test run)"}
+	}
 	if sr.Status != "refuted" {
 		return ReplayResult{Summary: "no model: every solver answered unknown or timed out (" + sr.Detail + ")"}
 	}
